@@ -99,10 +99,10 @@ func init() {
 		d("duplicate-key", "invoke-ok", "missing"),
 		"(a) 2 ctors with <=2 results, names {\"\",a} via option or result-object tag; (b) As(vI0) / As(vI0,vI1) on concrete *vA results, groups, consumers asking *vA / vI0 / vI1; (c) 2 single-result ctors with Export over <=2 scopes (duplicates through Export); (d) 2 ctors with group and single edges (a feeder rejected for a cycle next to accepted feeders), group contents checked; (e) 2 ctors with result objects and As(vI0) / As(vI0,vI1) over <=2 scopes (the same Out struct type with different As lists)", "quick entries plus (T09a) names, result objects, Export over 2 scopes",
 		stubs, uf)
-	reg("C10", d("verifC10a", "verifC10b", "verifC10c", "verifC10d", "verifC10e"), d("verifC10a", "verifC10b", "verifC10c", "verifC10d", "verifC10e", "verifT10a"),
+	reg("C10", d("verifC10a", "verifC10b", "verifC10c", "verifC10d", "verifC10e", "verifC10f"), d("verifC10a", "verifC10b", "verifC10c", "verifC10d", "verifC10e", "verifC10f", "verifT10a"),
 		d(pgBuild, "(go.uber.org/dig.paramGroupedSlice).callGroupProviders", rgExtract, "go.uber.org/dig.parseGroupString", "(*go.uber.org/dig.Scope).getValueGroup"),
 		d("group-nonempty", "invoke-ok", "bystander"),
-		"(a) 2 feeders placed freely in <=2 scopes with Export, 1 consumer from a free scope; (b) flatten results of length 0-2, a feeder added between two requests; (c) members provided As(vI0) / As(vI0,vI1), consumers of []*vA / []vI0 / []vI1, 2 Invokes; (d) 2 feeders with flatten results of length 0-2 placed freely in <=2 scopes; (e) 2 feeders and a consumer over the group names \"g\", \"g \", \"G\", \"gg\"", "quick entries plus (T10a) flatten, Export, a late feeder, 2 scopes, 2 Invokes",
+		"(a) 2 feeders placed freely in <=2 scopes with Export, 1 consumer from a free scope; (b) flatten results of length 0-2, a feeder added between two requests; (c) members provided As(vI0) / As(vI0,vI1), consumers of []*vA / []vI0 / []vI1, 2 Invokes; (d) 2 feeders with flatten results of length 0-2 placed freely in <=2 scopes; (e) 2 feeders and a consumer over the group names \"g\", \"g \", \"G\", \"gg\"; (f) ctor, ctor with <=2 results (single and group), decorator with an extra dependency (a feeder re-entered through a decorator of its dependency)", "quick entries plus (T10a) flatten, Export, a late feeder, 2 scopes, 2 Invokes",
 		stubs, uf, "group order is compared as a multiset")
 	reg("C11", d("verifC11a", "verifC11b", "verifC11c", "verifC11d", "verifC11e", "verifC11f"), d("verifC11a", "verifC11b", "verifC11c", "verifC11d", "verifC11e", "verifC11f", "verifT11a"),
 		d(pgBuild, poBuild, "go.uber.org/dig.parseGroupString"),
